@@ -1,5 +1,6 @@
 from __future__ import annotations
 
+import re
 from collections.abc import MutableMapping
 
 from jinja2 import Environment, Template, meta
@@ -15,6 +16,11 @@ def _check_template(name: str, source: str) -> None:
             f"Template '{name}' does not contain the "
             f"mandatory placeholder 'streamflow_command'."
         )
+
+
+def _escape_double_quoted(value: str) -> str:
+    # Inside double quotes the shell still interprets `$`, backquote, `"` and `\`
+    return re.sub(r'([$`"\\])', r"\\\1", value)
 
 
 class CommandTemplateMap:
@@ -50,7 +56,10 @@ class CommandTemplateMap:
             streamflow_command=command,
             streamflow_environment=(
                 " && ".join(
-                    [f'export {key}="{value}"' for (key, value) in environment.items()]
+                    [
+                        f'export {key}="{_escape_double_quoted(value)}"'
+                        for (key, value) in environment.items()
+                    ]
                 )
                 if environment is not None
                 else ""
